@@ -23,6 +23,44 @@ def coherence_ob(cls):
               f"{A_}::HeteroscedasticConditional.get_conditional_cov", group="coherent")
 
 
+def step_logdet_ob():
+    """step link: the log-determinant term of integrate_log_conditional_y is exact,
+       E_n[ln det Sigma_y(x)] = ln det AA' + ln 2 * sum_k P_n(h_k >= 0),  P_n(h_k >= 0) = Phi(m_kn / s_kn)
+    for a batch of N prior components (one per observation), each with its own (mu_n, Sigma_n)."""
+    cls = "HeteroscedasticHeavisideConditional"
+
+    def run():
+        from ..nf import Val
+        from ..dim import LOG2
+        from ..intrinsics import elementwise_inf
+        nf.ST.generic_nonzero = True
+        I = build.new_interp()
+        c = make_approx(I, cls, "c")
+        N, Dx = sym("N"), sym("Dx")
+        px = build.pdf(I, N, Dx, "px")
+        got = I.call_method(c, "get_lb_log_det", [px])
+        if not isinstance(got, Val) or len(got.axes) != 1 or got.shape[0] != N:
+            from ..core import Refuted
+            raise Refuted(f"get_lb_log_det returns shape {getattr(got, 'shape', None)} for a prior with N components (expected [N]: one value per prior component)",
+                          f"{A_}::{cls}.get_lb_log_det")
+        W = c.f["W"]
+        w0 = nf.slice_axis(W, 1, 0, 1)
+        w0 = Val([w0.axes[0]], w0.terms)
+        w = nf.slice_axis(W, 1, 1, W.shape[1])
+        mx, Sx = px.f["mu"], px.f["Sigma"]
+        lin = nf.add(nf.einsum("kx,nx->kn", w, mx), nf.expand_dims(w0, ["k", None]))
+        s2 = nf.einsum("kx,nxz,kz->kn", w, Sx, w)
+        z = nf.mul(lin, nf.elementwise("Sqrt", nf.elementwise("Recip", s2)))
+        Ph = elementwise_inf("Phi", z)
+        lds = c.f["ln_det_Sigma"]
+        ref = nf.add(nf.scale(nf.sum_axis(Ph, 0, False), LOG2), nf.expand_dims(Val([], lds.terms) if not lds.axes or lds.shape[0].is_one() and not lds.axes[0] else lds, []))
+        d = nf.diff(got, ref, what="E[ln det Sigma_y(x)] (step link)")
+        return d, dict(funcs=funcs_of(I))
+    return Ob(f"lb-logdet/{cls}", run,
+              "step link: get_lb_log_det(p_x)[n] == ln det AA' + ln 2 * sum_k Phi(m_kn / s_kn) with the moments of prior component n (exact expectation; one value per prior component)",
+              f"{A_}::{cls}.get_lb_log_det", group="lb-logdet")
+
+
 def obligations(tier):
     obs = []
     for cls in CLASSES:
@@ -31,6 +69,7 @@ def obligations(tier):
         ob.group = "conditional"
         obs.append(ob)
         obs.append(coherence_ob(cls))
+    obs.append(step_logdet_ob())
     return obs
 
 
